@@ -101,6 +101,7 @@ class Corr:
         self.cfg = (0, 0)
         self.keys = {}          # key -> (shortest program prefix, spec line, real line, classes)
         self.mism = {}          # op -> (program prefix, model line, real line, cls)
+        self.mism_classes = {}  # op -> classes on which the op mismatches
         self.opcount = collections.Counter()
         self.errcount = collections.Counter()
         self.kindcount = collections.Counter()
@@ -144,7 +145,8 @@ class Corr:
             prog = c19lib.program_lines(index, lines, pno)[:k + 1]
             op = prog[-1].split()[0]
             cur = self.mism.get(op)
-            if cur is None or len(prog) < len(cur[0]):
+            self.mism_classes.setdefault(op, set()).add(cls)
+            if cur is None or len(prog) < len(cur[0]) or (cls == "IntArray" and cur[3] != "IntArray"):
                 self.mism[op] = (prog, m, r, cls)
         for (pno, kind, k, m, r) in oobs:
             prog = c19lib.program_lines(index, lines, pno)[:k + 1]
@@ -444,7 +446,7 @@ def strings(chk):
                  {"first": bad_sr[0]}, True)
 
 
-def slices_vs_cpython(chk):
+def slices_vs_cpython(chk, cfg=c19lib.AS_WRITTEN):
     """model slice normalisation, the Lean specification walk and CPython itself, exhaustive small scope"""
     req, meta = [], []
     f = lambda x: "N" if x is None else str(x)
@@ -470,7 +472,7 @@ def slices_vs_cpython(chk):
     for n in range(0, 8):
         for i in range(-10, 11):
             req.append("specgetitem %d %d" % (n, i))
-    _, out = c19lib.run_model("\n".join(req) + "\n")
+    _, out = c19lib.run_model("\n".join(req) + "\n", cfg)
     bad_model, bad_spec, rejected = [], [], 0
     for k, (n, a, b, c) in enumerate(meta):
         ml, sl_ = out[2 * k].strip(), out[2 * k + 1].strip()
@@ -486,6 +488,8 @@ def slices_vs_cpython(chk):
         else:
             t = ml.split()
             stc = max(st, -(2**63 - 1))       # PySlice_Unpack clamps the step; slice.indices() does not
+            if idx == [] and int(t[4]) == 0 and t[5] == "[]":
+                continue                      # empty selection: `start` is not used (size_t start of -1)
             if not (int(t[1]) == s and int(t[2]) == e and int(t[3]) == stc and int(t[4]) == len(idx) and t[5] == want):
                 bad_model.append(((n, a, b, c), ml, (s, e, st, want)))
     base = 2 * len(meta)
@@ -624,33 +628,8 @@ def run(chk):
     chk.extra["array_classes"] = {"found": len(classes), "generic_with_codec": sorted(c for c, v in classes.items() if v["generic"] and v["codec"]),
                                   "not_driven": sorted(c for c, v in classes.items() if not (v["generic"] and v["codec"]))}
 
-    # ---- slice normalisation and the Lean spec against CPython itself
-    slices_vs_cpython(chk)
-
-    # ---- decide the model variant on the IntArray exhaustive stream
-    t0 = time.time()
-    ex_programs = list(c19lib.corpus_programs()) + list(c19_gen.exhaustive_1d())
-    text, index = c19_gen.write_stream(ex_programs)
-    lines = text.split("\n")
-    rc, real = c19lib.run_real(text)
-    score = {}
-    models = {}
-    for cfg in ((0, 0), (1, 0), (0, 1), (1, 1)):
-        _, ml = c19lib.run_model(text, cfg)
-        mism, oobs, n = c19lib.compare_model_real(index, lines, ml, real)
-        score[cfg] = (len(mism), len(oobs))
-        models[cfg] = ml
-    best = min(score, key=lambda c: (score[c], c))
-    co.cfg = best
-    chk.extra["model_variant"] = {"decided_by_correspondence": {"maskedAccessThrows": bool(best[0]), "convertDense": bool(best[1])},
-                                  "scores(mismatching programs, oob-predicted programs)": {str(k): v for k, v in score.items()}}
-    chk.oblige("variant:decided(maskedAccessThrows=%d,convertDense=%d)" % best, "correspondence", score[best][0] == 0,
-               {str(k): v for k, v in score.items()})
-    co.campaign("exhaustive", ex_programs, "IntArray", model_lines=models[best])
-    chk.exhaustive = True
-    chk.extra["exhaustive_s"] = round(time.time() - t0, 1)
-
-    # ---- the Lean witness programs, replayed on the real module
+    # ---- the Lean witness programs (Model/FixedArrayWitness.lean), replayed on the real module; each decides one
+    #      model flag: the variant whose model output equals the real module's on that witness
     _, wl = c19lib.run_model("witnesses\n")
     wit, cur = {}, None
     for l in wl:
@@ -658,20 +637,47 @@ def run(chk):
             cur = l[2:].strip(); wit[cur] = []
         elif l.strip() and cur:
             wit[cur].append(l.strip())
+    FLAG_OF = {"masked-inplace-scalar": 0, "masked-inplace-vector": 0, "convert-from-masked": 1, "slice-empty-backward": 2,
+               "ifelse-readonly": 3, "mask-on-masked": 4}
+    KEY_OF = {0: "masked-inplace-on-readonly", 1: "convert-ctor-from-masked", 2: "slice-negstep-start-below-range-raises",
+              3: "ifelse-on-readonly-source-raises", 4: "setitem-scalar-mask-on-masked-ref-ignores-mask"}
+    votes = {k: [] for k in range(c19lib.NFLAGS)}
     for name, prog in wit.items():
+        fl = FLAG_OF.get(name)
+        if fl is None:
+            continue
         txt = "\n".join(prog) + "\n"
         _, r = c19lib.run_real(txt)
-        _, ma = c19lib.run_model(txt, (0, 0))
-        _, mr = c19lib.run_model(txt, (1, 1))
-        same_as_written = all(("oob" in a) or a.strip() == b.strip() for a, b in zip(ma[:len(prog)], r[:len(prog)]))
-        same_repaired = all(a.strip() == b.strip() for a, b in zip(mr[:len(prog)], r[:len(prog)]))
-        chk.oblige("witness:%s:replayed" % name, "correspondence", same_as_written or same_repaired,
-                   {"real": r[:len(prog)], "matches": "asWritten" if same_as_written else ("repaired" if same_repaired else "neither")})
-        chk.sample({"witness": name, "program": prog, "real_last": r[len(prog) - 1], "model_asWritten_last": ma[len(prog) - 1],
-                    "model_repaired_last": mr[len(prog) - 1]})
-        if not same_repaired:
-            key = "masked-inplace-on-readonly" if name.startswith("masked-inplace") else "convert-ctor-from-masked"
-            co.note_key(key, prog, "repaired model: " + mr[len(prog) - 1], r[len(prog) - 1], "IntArray")
+        outs = {}
+        for val in (0, 1):
+            cfg = [0] * c19lib.NFLAGS
+            cfg[fl] = val
+            _, ml = c19lib.run_model(txt, cfg)
+            outs[val] = all(("oob" in a) or a.strip() == b.strip() for a, b in zip(ml[:len(prog)], r[:len(prog)])), ml
+        # an `oob` line matches anything: prefer the variant that matches without it
+        exact = {v: all(a.strip() == b.strip() for a, b in zip(outs[v][1][:len(prog)], r[:len(prog)])) for v in (0, 1)}
+        decided = 1 if exact[1] else (0 if outs[0][0] else None)
+        votes[fl].append(decided)
+        chk.oblige("witness:%s:replayed" % name, "correspondence", decided is not None,
+                   {"real": r[:len(prog)], "matches": {0: "asWritten", 1: "repaired", None: "neither"}[decided]})
+        chk.sample({"witness": name, "program": prog, "real_last": r[len(prog) - 1],
+                    "model_asWritten_last": outs[0][1][len(prog) - 1], "model_repaired_last": outs[1][1][len(prog) - 1]})
+        if decided != 1:
+            co.note_key(KEY_OF[fl], prog, "repaired model: " + outs[1][1][len(prog) - 1], r[len(prog) - 1], "IntArray")
+    best = tuple(1 if (votes[k] and all(v == 1 for v in votes[k])) else 0 for k in range(c19lib.NFLAGS))
+    co.cfg = best
+    chk.extra["model_variant"] = {"decided_by_correspondence": dict(zip(c19lib.FLAG_NAMES, [bool(b) for b in best])),
+                                  "witness_votes": {c19lib.FLAG_NAMES[k]: v for k, v in votes.items()}}
+
+    # ---- slice normalisation (decided variant) and the Lean spec against CPython itself
+    slices_vs_cpython(chk, best)
+
+    # ---- IntArray exhaustive stream under the decided variant (must reproduce the real module line by line)
+    t0 = time.time()
+    ex_programs = list(c19lib.corpus_programs()) + list(c19_gen.exhaustive_1d())
+    co.campaign("exhaustive", ex_programs, "IntArray")
+    chk.exhaustive = True
+    chk.extra["exhaustive_s"] = round(time.time() - t0, 1)
 
     # ---- every other FixedArray class: reduced exhaustive scope, in parallel
     t0 = time.time()
@@ -695,7 +701,8 @@ def run(chk):
             for k, vv in sub.keys.items():
                 co.note_key(k, vv[0], vv[1], vv[2], c)
             for op, vv in sub.mism.items():
-                co.mism.setdefault(op + ":" + c, vv)
+                co.mism.setdefault(op, vv)
+                co.mism_classes.setdefault(op, set()).add(c)
             co.lines += sub.lines; co.nontrivial += sub.nontrivial; co.aliased += sub.aliased
             co.opcount.update(sub.opcount); co.errcount.update(sub.errcount); co.kindcount.update(sub.kindcount); co.oob.update(sub.oob)
     chk.extra["typed_classes_s"] = round(time.time() - t0, 1)
@@ -703,11 +710,12 @@ def run(chk):
     # ---- random op sequences
     t0 = time.time()
     nrand = 20000 if chk.thorough else 2500
-    co.campaign("random", list(c19_gen.random_programs(chk.seed, nrand, 22)), "IntArray")
+    quirks = tuple(q for q, f in (("slice", best[2]), ("ifelse", best[3])) if not f)   # generator shadow follows the decided variant
+    co.campaign("random", list(c19_gen.random_programs(chk.seed, nrand, 22, quirks=quirks)), "IntArray")
     for c in [x for x in ("V3fArray", "DoubleArray", "C4fArray", "M33dArray") if x in typed]:
         v = classes[c]
         co.campaign("random", list(c19_gen.random_programs(chk.seed + sum(map(ord, c)), nrand // 8, 18, iadd=v["iadd"],
-                                                           convert=bool(v["convert"]), typed=True)), c)
+                                                           convert=bool(v["convert"]), typed=True, quirks=quirks)), c)
     chk.extra["random_s"] = round(time.time() - t0, 1)
 
     # ---- FixedArray2D / FixedMatrix
@@ -727,7 +735,8 @@ def run(chk):
         small = shrink_model(prog, co.cfg, cls) if not op.startswith(("d2", "m")) and len(co.mism) < 6 else prog
         chk.fail("corr:model=real", "model-mismatch:" + op,
                  "the real module and the model (variant %s) disagree on `%s`" % (co.cfg, small[-1]),
-                 {"program": small, "model": m, "real": r, "class": cls, "python": pyrepro(small) if cls == "IntArray" else None}, True)
+                 {"program": small, "model": m, "real": r, "class": cls, "classes": sorted(co.mism_classes.get(op, [])),
+                  "python": pyrepro(small) if cls == "IntArray" else None}, True)
     # ---- findings keyed by call site
     for key, (prog, a, b, clss) in sorted(co.keys.items()):
         cls0 = "IntArray" if "IntArray" in clss else sorted(clss)[0]
